@@ -649,7 +649,7 @@ unsigned parse_groups(MessageSpec& ritr, const string& name,
 			FieldSpecMap::const_iterator fs_itr;
 			if (ftonItr != ftonSpec.end() && (fs_itr = fspec.find(ftonItr->second)) != fspec.end())
 			{
-				if (!ritr._fields.add(FieldTrait(fs_itr->first, FieldTrait::ft_int, pp->GetSubIdx(),
+				if (!ritr._fields.add(FieldTrait(fs_itr->first, fs_itr->second._ftype, pp->GetSubIdx(), // the count field's declared type
 					required == "Y", true, compidx)))
 				{
 					if (!nowarn)
